@@ -836,6 +836,10 @@ func (s *Slice) walk(v ssa.Value, o SliceOpts, depth int, cc *callCtx) {
 	case *ssa.Lookup:
 		s.walk(x.X, o, depth, cc)
 		s.walk(x.Index, o, depth, cc)
+	case *ssa.Next:
+		s.walk(x.Iter, o, depth, cc)
+	case *ssa.Range:
+		s.walk(x.X, o, depth, cc)
 	case *ssa.BinOp:
 		s.walk(x.X, o, depth, cc)
 		s.walk(x.Y, o, depth, cc)
